@@ -1,8 +1,1555 @@
-//! Engine `procspec` (stub).
+//! Engine `procspec` (C15): children get exactly the configured argv/env/cwd/stdin; invalid,
+//! over-limit or policy-forbidden commands are refused before anything is spawned.
+//!
+//! A command specification (sequence of builder calls) is generated, rendered as a script, run
+//! through the real pipeline under a chosen `HostPolicy`, and what `vhelper report` wrote into a
+//! side file is compared with the generator's own record of the builder calls. The verdict the
+//! command should get (run / refused / denied) comes from `judge`, which is written from the
+//! property text and docs/PROCESS_EXECUTION.md, not from `ProcessCommand::validate`.
+//!
+//! Options: `--vhelper PATH --scratch DIR --stage limits|invalid|random [--dump 1]`.
+
+use std::collections::{BTreeMap, BTreeSet};
+use std::os::unix::ffi::OsStrExt;
+use std::os::unix::fs::MetadataExt;
+use std::path::Path;
+use std::time::Instant;
+
+use naijascript::diagnostics::AsStr;
+use naijascript::process::{HostPolicy, ProcessCaps};
+use naijascript::runtime::RuntimeErrorKind;
+use serde_json::{Value as J, json};
+
 use crate::Ctx;
+use crate::pipeline::{self, RunCfg};
+use crate::util::{self, Rng};
+
+// ---------------------------------------------------------------------------
+// Shared with proccap
+// ---------------------------------------------------------------------------
+
+/// Error category texts, taken from the crate so that rewording a message is not an alarm.
+pub struct Endings {
+    pub invalid: &'static str,
+    pub denied: &'static str,
+    pub limit: &'static str,
+    pub utf8: &'static str,
+    pub timeout: &'static str,
+    pub spawn: &'static str,
+}
+
+pub fn endings() -> Endings {
+    Endings {
+        invalid: RuntimeErrorKind::ProcessSpecInvalid("").as_str(),
+        denied: RuntimeErrorKind::ProcessDenied.as_str(),
+        limit: RuntimeErrorKind::ProcessOutputLimitExceeded("").as_str(),
+        utf8: RuntimeErrorKind::ProcessInvalidUtf8("").as_str(),
+        timeout: RuntimeErrorKind::ProcessTimeout.as_str(),
+        spawn: RuntimeErrorKind::ProcessSpawnFailed("").as_str(),
+    }
+}
+
+/// Renders `s` as a double-quoted script literal.
+pub fn lit(s: &str) -> String {
+    let mut q = String::with_capacity(s.len() + 2);
+    q.push('"');
+    for ch in s.chars() {
+        match ch {
+            '\\' => q.push_str("\\\\"),
+            '"' => q.push_str("\\\""),
+            '\n' => q.push_str("\\n"),
+            '\t' => q.push_str("\\t"),
+            _ => q.push(ch),
+        }
+    }
+    q.push('"');
+    q
+}
+
+/// A literal is taken verbatim when it has no `{`, or when it contains an escape sequence
+/// (the scanner then hands an owned buffer to the parser, which does not look for templates).
+/// CR cannot be written at all.
+pub fn lit_ok(s: &str) -> bool {
+    !s.contains('\r') && (!s.contains('{') || s.contains(['\\', '"', '\n', '\t']))
+}
+
+pub fn hex(bytes: &[u8]) -> String {
+    bytes.iter().map(|b| format!("{b:02x}")).collect()
+}
+
+pub fn unhex(s: &str) -> Vec<u8> {
+    let b = s.as_bytes();
+    let v = |c: u8| match c {
+        b'0'..=b'9' => c - b'0',
+        b'a'..=b'f' => c - b'a' + 10,
+        _ => 0,
+    };
+    b.chunks(2).filter(|c| c.len() == 2).map(|c| (v(c[0]) << 4) | v(c[1])).collect()
+}
+
+pub fn caps_json(c: &ProcessCaps) -> J {
+    json!({
+        "max_program_bytes": c.max_program_bytes, "max_cwd_bytes": c.max_cwd_bytes, "max_args": c.max_args,
+        "max_arg_bytes": c.max_arg_bytes, "max_total_arg_bytes": c.max_total_arg_bytes,
+        "max_env_pairs": c.max_env_pairs, "max_env_key_bytes": c.max_env_key_bytes,
+        "max_env_value_bytes": c.max_env_value_bytes, "max_total_env_bytes": c.max_total_env_bytes,
+        "max_stdin_bytes": c.max_stdin_bytes, "max_capture_bytes_per_stream": c.max_capture_bytes_per_stream,
+        "default_timeout_ms": c.default_timeout_ms, "max_timeout_ms": c.max_timeout_ms, "wait_poll_ms": c.wait_poll_ms,
+    })
+}
+
+fn show(s: &str) -> String {
+    show_n(s, 120)
+}
+
+fn show_n(s: &str, n: usize) -> String {
+    let t: String = s.chars().take(n).collect();
+    format!("{t:?}{}", if s.len() > t.len() { format!("… ({} bytes)", s.len()) } else { String::new() })
+}
+
+// ---------------------------------------------------------------------------
+// Command specification and its model
+// ---------------------------------------------------------------------------
+
+#[derive(Clone, Debug)]
+enum Val {
+    Str(String),
+    Num(f64),
+    Bool(bool),
+    Null,
+    Arr(Vec<Val>),
+}
+
+impl Val {
+    /// Script expression.
+    fn expr(&self) -> String {
+        match self {
+            Val::Str(s) => lit(s),
+            Val::Num(n) => format!("{n}"),
+            Val::Bool(b) => format!("{b}"),
+            Val::Null => "null".into(),
+            Val::Arr(items) => format!("[{}]", items.iter().map(Val::expr).collect::<Vec<_>>().join(", ")),
+        }
+    }
+
+    /// What the child must see: the `to_string` rendering.
+    fn text(&self) -> String {
+        match self {
+            Val::Str(s) => s.clone(),
+            Val::Num(n) => format!("{n}"),
+            Val::Bool(b) => format!("{b}"),
+            Val::Null => "null".into(),
+            Val::Arr(items) => {
+                let parts: Vec<String> = items
+                    .iter()
+                    .map(|v| match v {
+                        Val::Str(s) => format!("\"{s}\""),
+                        other => other.text(),
+                    })
+                    .collect();
+                format!("[{}]", parts.join(", "))
+            }
+        }
+    }
+
+    fn kind(&self) -> &'static str {
+        match self {
+            Val::Str(..) => "string",
+            Val::Num(..) => "number",
+            Val::Bool(..) => "boolean",
+            Val::Null => "null",
+            Val::Arr(..) => "array",
+        }
+    }
+}
+
+#[derive(Clone, Debug)]
+enum Call {
+    Arg(Val),
+    Cwd(String),
+    Env(String, Val),
+    StdinText(Val),
+    StdinNull,
+    StdinInherit,
+    Out(u8),
+    Err(u8),
+    Timeout(f64),
+}
+
+impl Call {
+    fn letter(&self) -> char {
+        match self {
+            Call::Arg(..) => 'a',
+            Call::Cwd(..) => 'c',
+            Call::Env(..) => 'e',
+            Call::StdinText(..) | Call::StdinNull | Call::StdinInherit => 'i',
+            Call::Out(..) => 'o',
+            Call::Err(..) => 'r',
+            Call::Timeout(..) => 't',
+        }
+    }
+
+    fn render(&self) -> String {
+        const POL: [&str; 3] = ["capture", "inherit", "null"];
+        match self {
+            Call::Arg(v) => format!("c.arg({})", v.expr()),
+            Call::Cwd(p) => format!("c.cwd({})", lit(p)),
+            Call::Env(k, v) => format!("c.env({}, {})", lit(k), v.expr()),
+            Call::StdinText(v) => format!("c.stdin_text({})", v.expr()),
+            Call::StdinNull => "c.stdin_null()".into(),
+            Call::StdinInherit => "c.stdin_inherit()".into(),
+            Call::Out(p) => format!("c.stdout_{}()", POL[*p as usize % 3]),
+            Call::Err(p) => format!("c.stderr_{}()", POL[*p as usize % 3]),
+            Call::Timeout(n) => format!("c.timeout_ms({n})"),
+        }
+    }
+}
+
+#[derive(Clone, Debug, PartialEq)]
+enum Stdin {
+    Default,
+    Inherit,
+    Null,
+    Text(String),
+}
+
+#[derive(Clone, Debug)]
+struct Spec {
+    program: String,
+    calls: Vec<Call>,
+}
+
+/// The command as configured when `run()` is reached.
+#[derive(Clone, Debug)]
+struct Model {
+    program: String,
+    args: Vec<String>,
+    cwd: Option<String>,
+    env: Vec<(String, String)>,
+    stdin: Stdin,
+    timeout: Option<f64>,
+    /// a builder call itself was invalid (timeout not a positive whole number)
+    builder_error: Option<&'static str>,
+}
+
+fn model_of(spec: &Spec) -> Model {
+    let mut m = Model {
+        program: spec.program.clone(),
+        args: Vec::new(),
+        cwd: None,
+        env: Vec::new(),
+        stdin: Stdin::Default,
+        timeout: None,
+        builder_error: None,
+    };
+    for call in &spec.calls {
+        match call {
+            Call::Arg(v) => m.args.push(v.text()),
+            Call::Cwd(p) => m.cwd = Some(p.clone()),
+            Call::Env(k, v) => {
+                // last write per key wins
+                if let Some(slot) = m.env.iter_mut().find(|(key, _)| key == k) {
+                    slot.1 = v.text();
+                } else {
+                    m.env.push((k.clone(), v.text()));
+                }
+            }
+            Call::StdinText(v) => m.stdin = Stdin::Text(v.text()),
+            Call::StdinNull => m.stdin = Stdin::Null,
+            Call::StdinInherit => m.stdin = Stdin::Inherit,
+            Call::Out(..) | Call::Err(..) => {}
+            Call::Timeout(n) => {
+                if !(n.is_finite() && *n > 0.0 && n.fract() == 0.0) {
+                    m.builder_error = Some("timeout_zero");
+                    break; // the script ends here
+                }
+                m.timeout = Some(*n);
+            }
+        }
+    }
+    m
+}
+
+/// Reasons for which the property requires a refusal (empty = the command must run).
+fn judge(m: &Model, caps: &ProcessCaps) -> Vec<String> {
+    let mut why: Vec<String> = Vec::new();
+    if let Some(e) = m.builder_error {
+        why.push(e.to_string());
+        return why;
+    }
+    let over = |len: usize, cap: u32| len as u64 > u64::from(cap);
+    if m.program.is_empty() {
+        why.push("empty|program".into());
+    }
+    if m.program.contains('\0') {
+        why.push("nul|program".into());
+    }
+    if over(m.program.len(), caps.max_program_bytes) {
+        why.push("max_program_bytes".into());
+    }
+    if over(m.args.len(), caps.max_args) {
+        why.push("max_args".into());
+    }
+    let mut total = 0usize;
+    for a in &m.args {
+        if a.contains('\0') {
+            why.push("nul|arg".into());
+        }
+        if over(a.len(), caps.max_arg_bytes) {
+            why.push("max_arg_bytes".into());
+        }
+        total += a.len();
+    }
+    if over(total, caps.max_total_arg_bytes) {
+        why.push("max_total_arg_bytes".into());
+    }
+    if let Some(cwd) = &m.cwd {
+        if cwd.is_empty() {
+            why.push("empty|cwd".into());
+        }
+        if cwd.contains('\0') {
+            why.push("nul|cwd".into());
+        }
+        if over(cwd.len(), caps.max_cwd_bytes) {
+            why.push("max_cwd_bytes".into());
+        }
+    }
+    if over(m.env.len(), caps.max_env_pairs) {
+        why.push("max_env_pairs".into());
+    }
+    let mut total = 0usize;
+    for (k, v) in &m.env {
+        if k.is_empty() {
+            why.push("empty|env_key".into());
+        }
+        if k.contains('\0') {
+            why.push("nul|env_key".into());
+        }
+        if k.contains('=') {
+            why.push("equals|env_key".into());
+        }
+        if over(k.len(), caps.max_env_key_bytes) {
+            why.push("max_env_key_bytes".into());
+        }
+        if v.contains('\0') {
+            why.push("nul|env_value".into());
+        }
+        if over(v.len(), caps.max_env_value_bytes) {
+            why.push("max_env_value_bytes".into());
+        }
+        total += k.len() + v.len();
+    }
+    if over(total, caps.max_total_env_bytes) {
+        why.push("max_total_env_bytes".into());
+    }
+    if let Stdin::Text(t) = &m.stdin {
+        if t.contains('\0') {
+            why.push("nul|stdin".into());
+        }
+        if over(t.len(), caps.max_stdin_bytes) {
+            why.push("max_stdin_bytes".into());
+        }
+    }
+    let t = m.timeout.unwrap_or(f64::from(caps.default_timeout_ms));
+    if t <= 0.0 {
+        why.push("timeout_zero".into());
+    } else if t > f64::from(caps.max_timeout_ms) {
+        why.push("max_timeout_ms".into());
+    }
+    why.sort();
+    why.dedup();
+    why
+}
+
+// ---------------------------------------------------------------------------
+// String material
+// ---------------------------------------------------------------------------
+
+const PIECES: &[(&str, &str)] = &[
+    ("space", " "),
+    ("space", "a b"),
+    ("space", "  two  "),
+    ("squote", "'"),
+    ("squote", "it's"),
+    ("dquote", "\""),
+    ("dquote", "say \"hi\""),
+    ("dollar", "$HOME"),
+    ("dollar", "$VAR"),
+    ("dollar", "$(id)"),
+    ("dollar", "$1"),
+    ("star", "*"),
+    ("star", "*.txt"),
+    ("semicolon", ";"),
+    ("semicolon", "; ls"),
+    ("pipe", "|"),
+    ("pipe", "| cat"),
+    ("andand", "&&"),
+    ("andand", "a && b"),
+    ("newline", "\n"),
+    ("newline", "x\ny"),
+    ("tab", "\t"),
+    ("utf8_2", "é"),
+    ("utf8_2", "ñü"),
+    ("utf8_3", "€"),
+    ("utf8_3", "日本"),
+    ("utf8_4", "😀"),
+    ("utf8_4", "𝄞"),
+    ("backslash", "\\"),
+    ("backslash", "a\\nb"),
+    ("backslash", "\\\\"),
+    ("brace", "{"),
+    ("brace", "{x}"),
+    ("brace", "}"),
+    ("brace", "${PATH}"),
+    ("plain", "abc"),
+    ("plain", "x"),
+    ("plain", "0"),
+    ("dash", "-n"),
+    ("dash", "--"),
+    ("redirect", ">"),
+    ("redirect", "< /etc/passwd"),
+    ("redirect", "2>&1"),
+    ("backtick", "`id`"),
+    ("tilde", "~"),
+    ("hash", "#c"),
+    ("paren", "(a)"),
+    ("bang", "!"),
+    ("percent", "%s%n"),
+    ("amp", "&"),
+    ("glob", "?"),
+    ("glob", "[a-z]"),
+    ("equals", "a=b"),
+    ("ctrl", "\u{1}"),
+    ("ctrl", "\u{7f}"),
+    ("unicode_space", "\u{a0}"),
+    ("unicode_space", "\u{feff}"),
+];
+
+/// Shell metacharacters or white space (non-triviality rule).
+fn is_meta(s: &str) -> bool {
+    s.chars().any(|c| c.is_whitespace() || "'\"$*;|&<>`~#()!?[]{}\\".contains(c))
+}
+
+fn gen_text(rng: &mut Rng, tags: &mut BTreeSet<String>) -> String {
+    let n = rng.weighted(&[1, 4, 4, 3, 2, 1]);
+    if n == 0 {
+        tags.insert("class.empty".into());
+        return String::new();
+    }
+    let mut s = String::new();
+    for _ in 0..n {
+        let (class, piece) = PIECES[rng.usize(PIECES.len())];
+        tags.insert(format!("class.{class}"));
+        s.push_str(piece);
+    }
+    if !lit_ok(&s) {
+        s.push('\t');
+        tags.insert("class.tab".into());
+    }
+    s
+}
+
+/// Exactly `bytes` bytes, no NUL, no `{`.
+fn gen_exact(rng: &mut Rng, bytes: usize, tags: &mut BTreeSet<String>) -> String {
+    let mut s = String::with_capacity(bytes);
+    if bytes == 0 {
+        tags.insert("class.empty".into());
+    }
+    if bytes >= 1000 {
+        tags.insert("class.long".into());
+    }
+    let mut tries = 0;
+    while s.len() < bytes && tries < 12 {
+        tries += 1;
+        let (class, piece) = PIECES[rng.usize(PIECES.len())];
+        if piece.contains('{') || s.len() + piece.len() > bytes {
+            continue;
+        }
+        tags.insert(format!("class.{class}"));
+        s.push_str(piece);
+    }
+    // fill: a multi-byte tail when it fits exactly, then ASCII
+    while bytes - s.len() >= 3 && rng.chance(1, 8) {
+        s.push('€');
+    }
+    while s.len() < bytes {
+        s.push((b'a' + (s.len() % 26) as u8) as char);
+    }
+    debug_assert_eq!(s.len(), bytes);
+    s
+}
+
+const KEY_PIECES: &[&str] = &["VH_", "K", "k", "x1", "é", " ", "$", "-", ".", "日", "_", "9", "Path", "*", ";", "'"];
+
+fn gen_key(rng: &mut Rng, tags: &mut BTreeSet<String>, inherited: &[String]) -> String {
+    if !inherited.is_empty() && rng.chance(1, 8) {
+        tags.insert("env.override_inherited".into());
+        return rng.pick(inherited).clone();
+    }
+    loop {
+        let mut k = String::from(if rng.chance(2, 3) { "VH" } else { "" });
+        for _ in 0..rng.range(1, 3) {
+            k.push_str(rng.pick(KEY_PIECES));
+        }
+        if key_allowed(&k) {
+            if !k.is_ascii() {
+                tags.insert("env.key_multibyte".into());
+            }
+            if is_meta(&k) {
+                tags.insert("env.key_meta".into());
+            }
+            return k;
+        }
+    }
+}
+
+fn key_allowed(k: &str) -> bool {
+    !(k.is_empty()
+        || k == "VH_KEYS"
+        || k == "VH_EXIT"
+        || k.starts_with("LD_")
+        || k.starts_with("MALLOC")
+        || k.starts_with("GLIBC")
+        || k == "PATH")
+}
+
+fn gen_exact_key(rng: &mut Rng, bytes: usize) -> String {
+    // "VH" prefix keeps it clear of anything the loader or libc looks at
+    let mut k = String::new();
+    for (i, c) in "VHK".chars().enumerate() {
+        if i < bytes {
+            k.push(c);
+        }
+    }
+    while k.len() < bytes {
+        if bytes - k.len() >= 2 && rng.chance(1, 6) {
+            k.push('é');
+        } else {
+            k.push((b'A' + rng.below(26) as u8) as char);
+        }
+    }
+    k
+}
+
+fn gen_val(rng: &mut Rng, tags: &mut BTreeSet<String>) -> Val {
+    let v = match rng.weighted(&[16, 2, 1, 1, 1]) {
+        0 => Val::Str(gen_text(rng, tags)),
+        1 => Val::Num(*rng.pick(&[0.0, 1.0, 7.0, 42.0, 2.5, 0.1, 1234567.0, 100000000000000000000.0, 0.000001, 3.0e-7])),
+        2 => Val::Bool(rng.chance(1, 2)),
+        3 => Val::Null,
+        _ => Val::Arr(vec![Val::Num(*rng.pick(&[1.0, 2.5])), Val::Str((*rng.pick(&["s", "a b", "é", ""])).to_string()), Val::Bool(rng.chance(1, 2)), Val::Null]),
+    };
+    if !matches!(v, Val::Str(..)) {
+        tags.insert(format!("value.{}", v.kind()));
+    }
+    v
+}
+
+// ---------------------------------------------------------------------------
+// Environment of the engine (scratch layout, what the children inherit)
+// ---------------------------------------------------------------------------
+
+struct Env {
+    vhelper: String,
+    scratch: String,
+    /// (path as written in scripts, canonical path the child must report)
+    dirs: Vec<String>,
+    worker_cwd: Vec<u8>,
+    worker_env: BTreeMap<Vec<u8>, Vec<u8>>,
+    inherited_keys: Vec<String>,
+    stdin_ino: u64,
+    devnull_rdev: u64,
+    e: Endings,
+    dump: bool,
+}
+
+fn setup(ctx: &Ctx) -> Env {
+    let vhelper = ctx.opt("vhelper").expect("--vhelper").to_string();
+    let scratch = std::fs::canonicalize(ctx.opt("scratch").expect("--scratch")).expect("scratch dir").to_string_lossy().into_owned();
+    assert!(lit_ok(&scratch) && lit_ok(&vhelper));
+    // directories a command can be started in; they contain files a glob would pick up
+    let names = ["d0", "d 1", "dé€", "d$HOME;x", "d'q\"", "d*"];
+    let mut dirs = Vec::new();
+    for n in names {
+        let p = format!("{scratch}/cwd/{n}");
+        std::fs::create_dir_all(&p).expect("mkdir");
+        let _ = std::fs::write(format!("{p}/a.txt"), b"a");
+        let _ = std::fs::write(format!("{p}/b.txt"), b"b");
+        dirs.push(p);
+    }
+    // The worker itself moves into a sandbox directory: children without a configured cwd start
+    // there, and should a defect ever hand an argument to a shell (`> x`, `| tee *`), only scratch
+    // files can be hit.
+    let sandbox = format!("{scratch}/wcwd-{}", ctx.shard);
+    std::fs::create_dir_all(&sandbox).expect("mkdir");
+    let _ = std::fs::write(format!("{sandbox}/a.txt"), b"a");
+    let _ = std::fs::write(format!("{sandbox}/b.txt"), b"b");
+    std::env::set_current_dir(&sandbox).expect("chdir");
+    std::fs::create_dir_all(format!("{scratch}/s")).expect("mkdir");
+    std::fs::create_dir_all(format!("{scratch}/canary")).expect("mkdir");
+
+    // fd 0 of this worker becomes an empty regular file: an inheriting child reads EOF at once and
+    // can be told apart from a child whose stdin is /dev/null or a pipe
+    let stdin_path = format!("{scratch}/stdin-{}.empty", ctx.shard);
+    std::fs::write(&stdin_path, b"").expect("stdin file");
+    let c = std::ffi::CString::new(stdin_path.clone()).unwrap();
+    unsafe {
+        let fd = libc::open(c.as_ptr(), libc::O_RDONLY);
+        assert!(fd >= 0);
+        libc::dup2(fd, 0);
+        if fd != 0 {
+            libc::close(fd);
+        }
+    }
+    let stdin_ino = std::fs::metadata(&stdin_path).expect("stat").ino();
+    let devnull_rdev = std::fs::metadata("/dev/null").expect("stat").rdev();
+    let worker_env: BTreeMap<Vec<u8>, Vec<u8>> =
+        std::env::vars_os().map(|(k, v)| (k.as_bytes().to_vec(), v.as_bytes().to_vec())).collect();
+    let inherited_keys: Vec<String> = ["RUST_BACKTRACE", "CARGO_NET_OFFLINE", "HOME", "LANG", "USER"]
+        .iter()
+        .filter(|k| worker_env.contains_key(k.as_bytes()))
+        .map(|k| (*k).to_string())
+        .collect();
+    Env {
+        vhelper,
+        scratch,
+        dirs,
+        worker_cwd: std::env::current_dir().expect("cwd").as_os_str().as_bytes().to_vec(),
+        worker_env,
+        inherited_keys,
+        stdin_ino,
+        devnull_rdev,
+        e: endings(),
+        dump: ctx.opt("dump").is_some(),
+    }
+}
+
+/// `path` lengthened to exactly `bytes` bytes by repeating the slash after its first component.
+fn pad_path(path: &str, bytes: usize) -> Option<String> {
+    if bytes < path.len() {
+        return None;
+    }
+    let cut = path[1..].find('/').map_or(path.len(), |i| i + 1);
+    let mut s = String::with_capacity(bytes);
+    s.push_str(&path[..cut]);
+    for _ in 0..bytes - path.len() {
+        s.push('/');
+    }
+    s.push_str(&path[cut..]);
+    Some(s)
+}
+
+// ---------------------------------------------------------------------------
+// Case construction
+// ---------------------------------------------------------------------------
+
+struct Case {
+    spec: Spec,
+    caps: ProcessCaps,
+    allow: bool,
+    /// evidence tags
+    tags: BTreeSet<String>,
+    /// what is being probed (signature suffix), e.g. "max_args"
+    probe: String,
+    nontrivial: bool,
+    canary: Option<String>,
+    side: String,
+}
+
+#[derive(Default, Clone, Debug)]
+struct Usage {
+    program: usize,
+    cwd: usize,
+    args: usize,
+    arg: usize,
+    total_arg: usize,
+    pairs: usize,
+    key: usize,
+    value: usize,
+    total_env: usize,
+    stdin: usize,
+    timeout: Option<f64>,
+}
+
+fn usage_of(m: &Model) -> Usage {
+    Usage {
+        program: m.program.len(),
+        cwd: m.cwd.as_ref().map_or(0, String::len),
+        args: m.args.len(),
+        arg: m.args.iter().map(String::len).max().unwrap_or(0),
+        total_arg: m.args.iter().map(String::len).sum(),
+        pairs: m.env.len(),
+        key: m.env.iter().map(|(k, _)| k.len()).max().unwrap_or(0),
+        value: m.env.iter().map(|(_, v)| v.len()).max().unwrap_or(0),
+        total_env: m.env.iter().map(|(k, v)| k.len() + v.len()).sum(),
+        stdin: match &m.stdin {
+            Stdin::Text(t) => t.len(),
+            _ => 0,
+        },
+        timeout: m.timeout,
+    }
+}
+
+const CAP_NAMES: [&str; 11] = [
+    "max_program_bytes",
+    "max_cwd_bytes",
+    "max_args",
+    "max_arg_bytes",
+    "max_total_arg_bytes",
+    "max_env_pairs",
+    "max_env_key_bytes",
+    "max_env_value_bytes",
+    "max_total_env_bytes",
+    "max_stdin_bytes",
+    "max_timeout_ms",
+];
+
+fn cap_slot<'a>(caps: &'a mut ProcessCaps, name: &str) -> &'a mut u32 {
+    match name {
+        "max_program_bytes" => &mut caps.max_program_bytes,
+        "max_cwd_bytes" => &mut caps.max_cwd_bytes,
+        "max_args" => &mut caps.max_args,
+        "max_arg_bytes" => &mut caps.max_arg_bytes,
+        "max_total_arg_bytes" => &mut caps.max_total_arg_bytes,
+        "max_env_pairs" => &mut caps.max_env_pairs,
+        "max_env_key_bytes" => &mut caps.max_env_key_bytes,
+        "max_env_value_bytes" => &mut caps.max_env_value_bytes,
+        "max_total_env_bytes" => &mut caps.max_total_env_bytes,
+        "max_stdin_bytes" => &mut caps.max_stdin_bytes,
+        "max_timeout_ms" => &mut caps.max_timeout_ms,
+        other => panic!("cap {other}"),
+    }
+}
+
+/// Caps that fit the usage: each one exactly at the usage (often), slightly above, or generous.
+fn fitting_caps(rng: &mut Rng, u: &Usage, tags: &mut BTreeSet<String>) -> ProcessCaps {
+    let mut slack = |used: usize, name: &str| -> u32 {
+        let d = match rng.weighted(&[3, 3, 2]) {
+            0 => {
+                tags.insert(format!("random_cap_at_usage.{name}"));
+                0
+            }
+            1 => rng.range(1, 5) as usize,
+            _ => rng.range(6, 100_000) as usize,
+        };
+        (used + d).min(u32::MAX as usize) as u32
+    };
+    let mut caps = ProcessCaps::defaults();
+    caps.max_program_bytes = slack(u.program, "max_program_bytes");
+    caps.max_cwd_bytes = slack(u.cwd, "max_cwd_bytes");
+    caps.max_args = slack(u.args, "max_args");
+    caps.max_arg_bytes = slack(u.arg, "max_arg_bytes");
+    caps.max_total_arg_bytes = slack(u.total_arg, "max_total_arg_bytes");
+    caps.max_env_pairs = slack(u.pairs, "max_env_pairs");
+    caps.max_env_key_bytes = slack(u.key, "max_env_key_bytes");
+    caps.max_env_value_bytes = slack(u.value, "max_env_value_bytes");
+    caps.max_total_env_bytes = slack(u.total_env, "max_total_env_bytes");
+    caps.max_stdin_bytes = slack(u.stdin, "max_stdin_bytes");
+    // time: children finish within milliseconds; nothing below 30 s is ever configured
+    let t = u.timeout.unwrap_or(0.0);
+    let floor = 60_000.0_f64.max(t);
+    caps.max_timeout_ms = (floor + rng.pick(&[0.0, 1.0, 5_000.0, 3_000_000.0])).min(f64::from(u32::MAX)) as u32;
+    caps.default_timeout_ms = (*rng.pick(&[30_000u32, 60_000, 900_000])).min(caps.max_timeout_ms);
+    caps.wait_poll_ms = rng.range(1, 20) as u32;
+    caps
+}
+
+fn side_path(env: &Env, stage: &str, idx: u64) -> String {
+    format!("{}/s/{}{idx}", env.scratch, &stage[..1])
+}
+
+/// How the helper learns where to write: `report <side>` as its first two arguments, or (so that
+/// commands without any argument exist too) the environment variable VH_SIDE.
+fn base_calls(side: &str, via_env: bool) -> Vec<Call> {
+    if via_env {
+        vec![Call::Env("VH_SIDE".into(), Val::Str(side.to_string()))]
+    } else {
+        vec![Call::Arg(Val::Str("report".into())), Call::Arg(Val::Str(side.to_string()))]
+    }
+}
+
+/// Random extra builder calls (all valid as strings); `report` and the side file come first among
+/// the arguments, everything else is shuffled with repeats.
+fn random_calls(rng: &mut Rng, env: &Env, tags: &mut BTreeSet<String>, richness: u32) -> Vec<Call> {
+    let mut v = Vec::new();
+    let n_args = rng.weighted(&[2, 3, 3, 2, 1, 1]) * richness as usize;
+    for _ in 0..n_args {
+        v.push(Call::Arg(gen_val(rng, tags)));
+    }
+    let n_env = rng.weighted(&[3, 3, 2, 2, 1]) * richness as usize;
+    let mut keys: Vec<String> = Vec::new();
+    for _ in 0..n_env {
+        let key = if !keys.is_empty() && rng.chance(1, 3) {
+            tags.insert("env.rewrite_same_key".into());
+            rng.pick(&keys).clone()
+        } else {
+            gen_key(rng, tags, &env.inherited_keys)
+        };
+        keys.push(key.clone());
+        v.push(Call::Env(key, gen_val(rng, tags)));
+    }
+    for _ in 0..rng.weighted(&[3, 4, 2, 1]) {
+        v.push(Call::Cwd(rng.pick(&env.dirs).clone()));
+    }
+    for _ in 0..rng.weighted(&[2, 4, 2, 1]) {
+        v.push(match rng.weighted(&[5, 1, 1]) {
+            0 => Call::StdinText(gen_val(rng, tags)),
+            1 => Call::StdinNull,
+            _ => Call::StdinInherit,
+        });
+    }
+    for _ in 0..rng.weighted(&[3, 2, 1]) {
+        v.push(Call::Out(rng.below(3) as u8));
+    }
+    for _ in 0..rng.weighted(&[3, 2, 1]) {
+        v.push(Call::Err(rng.below(3) as u8));
+    }
+    for _ in 0..rng.weighted(&[3, 2, 1]) {
+        v.push(Call::Timeout(*rng.pick(&[30_000.0, 60_000.0, 600_000.0, 3_600_000.0])));
+    }
+    v
+}
+
+/// Shuffles `extra` and merges it with `fixed` keeping the relative order of `fixed`.
+fn interleave(rng: &mut Rng, fixed: Vec<Call>, mut extra: Vec<Call>) -> Vec<Call> {
+    for i in (1..extra.len()).rev() {
+        extra.swap(i, rng.usize(i + 1));
+    }
+    let mut out = Vec::with_capacity(fixed.len() + extra.len());
+    let mut fixed = fixed.into_iter().peekable();
+    let mut extra = extra.into_iter().peekable();
+    while fixed.peek().is_some() || extra.peek().is_some() {
+        let take_fixed = match (fixed.peek().is_some(), extra.peek().is_some()) {
+            // `report <side>` must stay the first two arguments
+            (true, true) => matches!(extra.peek(), Some(Call::Arg(..))) || rng.chance(1, 3),
+            (true, false) => true,
+            _ => false,
+        };
+        out.push(if take_fixed { fixed.next().unwrap() } else { extra.next().unwrap() });
+    }
+    out
+}
+
+/// `total` split into `parts` non-negative summands, each at most `max_part`.
+fn partition(rng: &mut Rng, total: usize, parts: usize, max_part: usize) -> Vec<usize> {
+    let mut v = vec![0usize; parts.max(1)];
+    let mut left = total;
+    let n = v.len();
+    for (i, slot) in v.iter_mut().enumerate() {
+        let rest_capacity = (n - i - 1) * max_part;
+        let lo = left.saturating_sub(rest_capacity);
+        let hi = left.min(max_part);
+        let take = if i == n - 1 { left.min(max_part) } else { lo + rng.usize(hi - lo + 1) };
+        *slot = take;
+        left -= take;
+    }
+    assert_eq!(left, 0, "partition does not fit");
+    v
+}
+
+fn limits_case(rng: &mut Rng, env: &Env, idx: u64) -> Case {
+    // idx → (cap kind, position, variant); variant 0 probes the shipped default value of the cap
+    let kind = (idx % 12) as usize;
+    let pos = ((idx / 12) % 3) as i64 - 1; // -1 below, 0 at, +1 above
+    let variant = idx / 36;
+    let defaults = variant == 0;
+    let side = side_path(env, "limits", idx);
+    let mut tags = BTreeSet::new();
+    let pos_name = ["below", "at", "above"][(pos + 1) as usize];
+    let d = ProcessCaps::defaults();
+    // env-related caps keep the argument form, so that small limits stay possible
+    let via_env = !(5..=8).contains(&kind) && rng.chance(1, 2);
+    if via_env {
+        tags.insert("side_file_via_env".into());
+    }
+    let base_len = if via_env { 0 } else { "report".len() + side.len() };
+    let base_args_n = if via_env { 0 } else { 2 };
+    let mut program = env.vhelper.clone();
+    let mut fixed = base_calls(&side, via_env);
+    let mut extra: Vec<Call> = Vec::new();
+    let mut probe_cap: Option<(&str, u32)> = None;
+
+    if kind == 11 {
+        // timeout: zero / saturation of the u32 conversion / the largest representable limit
+        let name = ["timeout_zero", "timeout_u32max", "timeout_above_u32"][(pos + 1) as usize];
+        tags.insert(format!("cap.{name}"));
+        let mut calls = fixed;
+        // above u32: with a cap of u32::MAX - 1 the request is over the cap however the number is
+        // converted. (With a cap of exactly u32::MAX the pinned tree clamps 2^32 to the cap and
+        // runs; whether that counts as "over the limit" is debatable, so it is only recorded.)
+        let observe_only = pos == 1 && variant % 2 == 1;
+        match pos {
+            -1 => calls.push(Call::Timeout(0.0)),
+            0 => calls.push(Call::Timeout(f64::from(u32::MAX))),
+            _ => calls.push(Call::Timeout(f64::from(u32::MAX) + 1.0)),
+        }
+        if rng.chance(1, 2) {
+            calls.push(Call::Arg(gen_val(rng, &mut tags)));
+        }
+        let spec = Spec { program, calls };
+        let mut caps = fitting_caps(rng, &usage_of(&model_of(&spec)), &mut tags);
+        caps.max_timeout_ms = if pos == 1 && !observe_only { u32::MAX - 1 } else { u32::MAX };
+        let probe = if observe_only { "observe|timeout_2^32_under_cap_u32max".to_string() } else { name.to_string() };
+        return Case { spec, caps, allow: true, tags, probe, nontrivial: true, canary: None, side };
+    }
+
+    let name = CAP_NAMES[kind];
+    tags.insert(format!("cap.{name}.{pos_name}{}", if defaults { ".default_value" } else { "" }));
+    let mut limit: u32 = *cap_slot(&mut d.clone(), name);
+    let q = |limit: u32| (i64::from(limit) + pos) as usize;
+    match name {
+        "max_program_bytes" => {
+            if !defaults {
+                limit = (env.vhelper.len() as i64 + rng.range(2, 40)) as u32;
+            }
+            program = pad_path(&env.vhelper, q(limit)).expect("pad");
+        }
+        "max_cwd_bytes" => {
+            let dir = rng.pick(&env.dirs).clone();
+            if !defaults {
+                limit = (dir.len() as i64 + rng.range(2, 40)) as u32;
+            }
+            extra.push(Call::Cwd(pad_path(&dir, q(limit)).expect("pad")));
+        }
+        "max_args" => {
+            if !defaults {
+                limit = rng.range(base_args_n as i64 + 1, 24) as u32;
+            }
+            for _ in 0..q(limit) - base_args_n {
+                let v = if rng.chance(1, 2) { Val::Str(gen_text(rng, &mut tags)) } else { Val::Str("x".into()) };
+                extra.push(Call::Arg(v));
+            }
+        }
+        "max_arg_bytes" => {
+            if !defaults {
+                limit = ((if via_env { 0 } else { side.len() as i64 }) + rng.range(1, 200)) as u32;
+            }
+            extra.push(Call::Arg(Val::Str(gen_exact(rng, q(limit), &mut tags))));
+            if rng.chance(1, 2) {
+                let n = rng.usize(limit as usize + 1);
+                extra.push(Call::Arg(Val::Str(gen_exact(rng, n, &mut tags))));
+            }
+        }
+        "max_total_arg_bytes" => {
+            if !defaults {
+                limit = (base_len as i64 + rng.range(2, 400)) as u32;
+            }
+            let rest = q(limit) - base_len;
+            let max_part = d.max_arg_bytes as usize;
+            let parts = (rest / max_part + 1).max(rng.range(1, 4) as usize);
+            for n in partition(rng, rest, parts, max_part) {
+                extra.push(Call::Arg(Val::Str(gen_exact(rng, n, &mut tags))));
+            }
+        }
+        "max_env_pairs" => {
+            if !defaults {
+                limit = rng.range(1, 12) as u32;
+            }
+            for i in 0..q(limit) {
+                let key = format!("VH_P{i}");
+                extra.push(Call::Env(key.clone(), Val::Str(gen_text(rng, &mut tags))));
+                // rewriting a key does not add a pair
+                if rng.chance(1, 4) {
+                    tags.insert("env.rewrite_same_key".into());
+                    extra.push(Call::Env(key, Val::Str(gen_text(rng, &mut tags))));
+                }
+            }
+        }
+        "max_env_key_bytes" => {
+            if !defaults {
+                limit = rng.range(2, 60) as u32;
+            }
+            extra.push(Call::Env(gen_exact_key(rng, q(limit)), Val::Str(gen_text(rng, &mut tags))));
+        }
+        "max_env_value_bytes" => {
+            if !defaults {
+                limit = rng.range(1, 300) as u32;
+            }
+            extra.push(Call::Env("VH_V".into(), Val::Str(gen_exact(rng, q(limit), &mut tags))));
+        }
+        "max_total_env_bytes" => {
+            if !defaults {
+                limit = rng.range(3, 400) as u32;
+            }
+            let total = q(limit);
+            let max_value = d.max_env_value_bytes as usize;
+            let key_len = |i: usize| format!("VH{i}").len();
+            // distinct non-empty keys; as many pairs as are needed for the values to fit
+            let mut pairs = rng.range(1, 3) as usize;
+            loop {
+                let keys_total: usize = (0..pairs).map(key_len).sum();
+                if keys_total > total {
+                    pairs = 0;
+                    break;
+                }
+                if total - keys_total <= pairs * max_value {
+                    break;
+                }
+                pairs += 1;
+            }
+            if pairs == 0 {
+                extra.push(Call::Env(gen_exact_key(rng, 1), Val::Str(gen_exact(rng, total - 1, &mut tags))));
+            } else {
+                let keys_total: usize = (0..pairs).map(key_len).sum();
+                for (i, n) in partition(rng, total - keys_total, pairs, max_value).into_iter().enumerate() {
+                    extra.push(Call::Env(format!("VH{i}"), Val::Str(gen_exact(rng, n, &mut tags))));
+                }
+            }
+        }
+        "max_stdin_bytes" => {
+            if !defaults {
+                // now and then more than a pipe buffer holds
+                limit = if rng.chance(1, 4) { *rng.pick(&[65_536u32, 65_537, 70_000, 200_000]) } else { rng.range(1, 5000) as u32 };
+            }
+            extra.push(Call::StdinText(Val::Str(gen_exact(rng, q(limit), &mut tags))));
+        }
+        "max_timeout_ms" => {
+            if !defaults {
+                limit = *rng.pick(&[30_000u32, 60_000, 123_457, 86_400_000, 4_000_000_000]);
+            }
+            extra.push(Call::Timeout((i64::from(limit) + pos) as f64));
+        }
+        _ => unreachable!(),
+    }
+    probe_cap.replace((name, limit));
+    // a little unrelated decoration, never near another cap
+    if !defaults && rng.chance(1, 2) {
+        extra.push(Call::Out(rng.below(3) as u8));
+        extra.push(Call::Err(rng.below(3) as u8));
+    }
+    if name != "max_stdin_bytes" && rng.chance(1, 2) {
+        extra.push(Call::StdinNull);
+    }
+    let calls = interleave(rng, std::mem::take(&mut fixed), extra);
+    let spec = Spec { program, calls };
+    let mut caps = if defaults { d } else { fitting_caps(rng, &usage_of(&model_of(&spec)), &mut tags) };
+    if let Some((name, limit)) = probe_cap {
+        *cap_slot(&mut caps, name) = limit;
+        if name == "max_timeout_ms" {
+            caps.default_timeout_ms = caps.default_timeout_ms.min(limit);
+        }
+    }
+    Case { spec, caps, allow: true, tags, probe: name.to_string(), nontrivial: true, canary: None, side }
+}
+
+const INVALID_PROBES: [&str; 24] = [
+    "nul|program",
+    "nul|arg",
+    "nul|cwd",
+    "nul|env_key",
+    "nul|env_value",
+    "nul|stdin",
+    "equals|env_key",
+    "empty|program",
+    "empty|cwd",
+    "empty|env_key",
+    "denied",
+    "denied+invalid",
+    "ok|empty_arg",
+    "ok|empty_env_value",
+    "ok|empty_stdin",
+    "ok|invalid_env_value_overwritten",
+    "ok|invalid_cwd_overwritten",
+    "ok|oversize_stdin_then_null",
+    "ok|equals_in_value_and_arg",
+    "ok|no_args_env_cwd",
+    "nul|only",
+    "ok|many_rewrites_one_pair",
+    "ok|dash_args",
+    "ok|nonstring_values",
+];
+
+fn with_nul(rng: &mut Rng, tags: &mut BTreeSet<String>) -> String {
+    let (na, nb) = (rng.usize(6), rng.usize(6));
+    let a = if rng.chance(1, 2) { gen_exact(rng, na, tags) } else { String::new() };
+    let b = if rng.chance(1, 2) { gen_exact(rng, nb, tags) } else { String::new() };
+    tags.insert(format!("nul.{}", match (a.is_empty(), b.is_empty()) {
+        (true, true) => "alone",
+        (true, false) => "first",
+        (false, true) => "last",
+        _ => "middle",
+    }));
+    format!("{a}\0{b}")
+}
+
+fn invalid_case(rng: &mut Rng, env: &Env, idx: u64) -> Case {
+    let probe = INVALID_PROBES[(idx % INVALID_PROBES.len() as u64) as usize];
+    let side = side_path(env, "invalid", idx);
+    let mut tags = BTreeSet::new();
+    tags.insert(format!("probe.{probe}"));
+    let mut program = env.vhelper.clone();
+    let via_env = rng.chance(1, 2);
+    if via_env {
+        tags.insert("side_file_via_env".into());
+    }
+    let fixed = base_calls(&side, via_env);
+    let mut extra = if rng.chance(1, 2) { random_calls(rng, env, &mut tags, 1) } else { Vec::new() };
+    let mut tail: Vec<Call> = Vec::new();
+    let mut allow = true;
+    let mut oversize_stdin = false;
+    match probe {
+        "nul|program" => {
+            program = if rng.chance(1, 2) { format!("{}\0", env.vhelper) } else { format!("{}\0x", env.vhelper) };
+        }
+        "nul|arg" => extra.push(Call::Arg(Val::Str(with_nul(rng, &mut tags)))),
+        "nul|cwd" => tail.push(Call::Cwd(format!("{}\0", rng.pick(&env.dirs)))),
+        "nul|env_key" => {
+            let k = with_nul(rng, &mut tags).replace('=', "e");
+            extra.push(Call::Env(format!("VHN{k}"), Val::Str("v".into())));
+        }
+        "nul|env_value" => extra.push(Call::Env("VH_NULV".into(), Val::Str(with_nul(rng, &mut tags)))),
+        "nul|stdin" => tail.push(Call::StdinText(Val::Str(with_nul(rng, &mut tags)))),
+        "nul|only" => extra.push(Call::Arg(Val::Str("\0".into()))),
+        "equals|env_key" => {
+            let k = *rng.pick(&["=", "=VH_A", "VH_A=", "VH_A=B", "VH==", "VH_A=é"]);
+            extra.push(Call::Env(k.into(), Val::Str(gen_text(rng, &mut tags))));
+        }
+        "empty|program" => program = String::new(),
+        "empty|cwd" => tail.push(Call::Cwd(String::new())),
+        "empty|env_key" => extra.push(Call::Env(String::new(), Val::Str(gen_text(rng, &mut tags)))),
+        "denied" => allow = false,
+        "denied+invalid" => {
+            allow = false;
+            extra.push(Call::Arg(Val::Str("a\0b".into())));
+        }
+        "ok|empty_arg" => {
+            extra.push(Call::Arg(Val::Str(String::new())));
+            extra.push(Call::Arg(Val::Str(String::new())));
+        }
+        "ok|empty_env_value" => extra.push(Call::Env("VH_EMPTYV".into(), Val::Str(String::new()))),
+        "ok|empty_stdin" => tail.push(Call::StdinText(Val::Str(String::new()))),
+        "ok|invalid_env_value_overwritten" => {
+            tail.push(Call::Env("VH_OW".into(), Val::Str("a\0b".into())));
+            tail.push(Call::Env("VH_OW".into(), Val::Str(gen_text(rng, &mut tags))));
+        }
+        "ok|invalid_cwd_overwritten" => {
+            tail.push(Call::Cwd("\0".into()));
+            tail.push(Call::Cwd(rng.pick(&env.dirs).clone()));
+        }
+        "ok|oversize_stdin_then_null" => {
+            oversize_stdin = true;
+            tail.push(Call::StdinText(Val::Str(gen_exact(rng, 300, &mut tags))));
+            tail.push(if rng.chance(1, 2) { Call::StdinNull } else { Call::StdinText(Val::Str("ok".into())) });
+        }
+        "ok|equals_in_value_and_arg" => {
+            extra.push(Call::Env("VH_EQ".into(), Val::Str("a=b=c".into())));
+            extra.push(Call::Arg(Val::Str("=".into())));
+            extra.push(Call::Arg(Val::Str("K=V".into())));
+        }
+        "ok|no_args_env_cwd" => extra.clear(),
+        "ok|many_rewrites_one_pair" => {
+            for i in 0..rng.range(3, 9) {
+                tail.push(Call::Env("VH_RW".into(), Val::Num(i as f64)));
+            }
+        }
+        "ok|dash_args" => {
+            for a in ["-", "--", "-rf", "--help", "-c", "echo hi"] {
+                extra.push(Call::Arg(Val::Str(a.into())));
+            }
+        }
+        "ok|nonstring_values" => {
+            for v in [Val::Num(5.0), Val::Num(2.5), Val::Bool(true), Val::Bool(false), Val::Null, Val::Arr(vec![Val::Num(1.0), Val::Str("s".into())])] {
+                tags.insert(format!("value.{}", v.kind()));
+                extra.push(Call::Arg(v.clone()));
+                extra.push(Call::Env(format!("VH_NS{}", extra.len()), v));
+            }
+            tail.push(Call::StdinText(Val::Num(12.0)));
+        }
+        other => panic!("probe {other}"),
+    }
+    let mut calls = interleave(rng, fixed, extra);
+    calls.extend(tail);
+    let spec = Spec { program, calls };
+    let mut caps = fitting_caps(rng, &usage_of(&model_of(&spec)), &mut tags);
+    if oversize_stdin {
+        caps.max_stdin_bytes = caps.max_stdin_bytes.min(100);
+    }
+    if probe == "ok|many_rewrites_one_pair" {
+        // exactly as many pairs as distinct keys
+        caps.max_env_pairs = model_of(&spec).env.len() as u32;
+    }
+    Case { spec, caps, allow, tags, probe: probe.to_string(), nontrivial: false, canary: None, side }
+}
+
+fn random_case(rng: &mut Rng, env: &Env, idx: u64) -> Case {
+    let side = side_path(env, "random", idx);
+    let mut tags = BTreeSet::new();
+    let richness = if rng.chance(1, 10) { 3 } else { 1 };
+    let mut extra = random_calls(rng, env, &mut tags, richness);
+    // a canary: if anything interprets the argument, a file appears
+    let mut canary = None;
+    if rng.chance(1, 2) {
+        let path = format!("{}/canary/C{idx}", env.scratch);
+        let forms = [
+            format!("; touch {path}"),
+            format!("$(touch {path})"),
+            format!("`touch {path}`"),
+            format!("&& touch {path}"),
+            format!("| tee {path}"),
+            format!("> {path}"),
+            format!("x\ntouch {path}\n"),
+        ];
+        let form = rng.pick(&forms).clone();
+        tags.insert("canary".into());
+        match rng.weighted(&[6, 2, 1]) {
+            0 => extra.push(Call::Arg(Val::Str(form))),
+            1 => extra.push(Call::Env("VH_CANARY".into(), Val::Str(form))),
+            _ => extra.push(Call::StdinText(Val::Str(form))),
+        }
+        if rng.chance(1, 2) {
+            extra.push(Call::Arg(Val::Str("*".into())));
+        }
+        canary = Some(path);
+    }
+    let via_env = rng.chance(1, 4);
+    if via_env {
+        tags.insert("side_file_via_env".into());
+    }
+    let calls = interleave(rng, base_calls(&side, via_env), extra);
+    let program = if rng.chance(1, 6) { pad_path(&env.vhelper, env.vhelper.len() + rng.usize(4)).unwrap() } else { env.vhelper.clone() };
+    let spec = Spec { program, calls };
+    let m = model_of(&spec);
+    let u = usage_of(&m);
+    let mut caps = fitting_caps(rng, &u, &mut tags);
+    let mut probe = "random".to_string();
+    // one cap below the usage in a fifth of the cases
+    if rng.chance(1, 5) {
+        let name = CAP_NAMES[rng.usize(CAP_NAMES.len())];
+        let used: u64 = match name {
+            "max_program_bytes" => u.program as u64,
+            "max_cwd_bytes" => u.cwd as u64,
+            "max_args" => u.args as u64,
+            "max_arg_bytes" => u.arg as u64,
+            "max_total_arg_bytes" => u.total_arg as u64,
+            "max_env_pairs" => u.pairs as u64,
+            "max_env_key_bytes" => u.key as u64,
+            "max_env_value_bytes" => u.value as u64,
+            "max_total_env_bytes" => u.total_env as u64,
+            "max_stdin_bytes" => u.stdin as u64,
+            _ => u.timeout.map_or(0, |t| t as u64),
+        };
+        if used >= 1 {
+            let below = if rng.chance(2, 3) { used - 1 } else { rng.below(used) };
+            *cap_slot(&mut caps, name) = below as u32;
+            if name == "max_timeout_ms" {
+                caps.default_timeout_ms = caps.default_timeout_ms.min(below as u32).max(1);
+            }
+            tags.insert(format!("random_cap_below_usage.{name}"));
+            probe = name.to_string();
+        }
+    }
+    let allow = !rng.chance(1, 25);
+    let meta_args = m.args.iter().filter(|a| is_meta(a)).count();
+    Case { spec, caps, allow, tags, probe, nontrivial: meta_args >= 2, canary, side }
+}
+
+// ---------------------------------------------------------------------------
+// Running and checking one case
+// ---------------------------------------------------------------------------
+
+fn script_of(spec: &Spec) -> String {
+    let mut s = String::new();
+    s.push_str(&format!("make c get command({})\n", lit(&spec.program)));
+    for call in &spec.calls {
+        s.push_str(&call.render());
+        s.push('\n');
+    }
+    s.push_str("make r get c.run()\nshout(r.success())\nshout(r.exit_code())\n");
+    s
+}
+
+fn hex_list(j: Option<&J>) -> Vec<Vec<u8>> {
+    j.and_then(J::as_array).map(|a| a.iter().map(|x| unhex(x.as_str().unwrap_or(""))).collect()).unwrap_or_default()
+}
+
+fn lossy(b: &[u8]) -> String {
+    show(&String::from_utf8_lossy(b))
+}
+
+/// Compares what the child reported with the model. `None` = identical.
+fn compare(env: &Env, m: &Model, side: &J) -> Option<(String, J)> {
+    // argv: program name, then exactly the arguments
+    let argv = hex_list(side.get("argv"));
+    let mut want: Vec<Vec<u8>> = vec![m.program.as_bytes().to_vec()];
+    want.extend(m.args.iter().map(|a| a.as_bytes().to_vec()));
+    if argv != want {
+        let k = argv.iter().zip(&want).position(|(a, b)| a != b).unwrap_or(argv.len().min(want.len()));
+        let what = if argv.len() != want.len() { "argv-count" } else if k == 0 { "argv0" } else { "argv-mismatch" };
+        return Some((
+            what.into(),
+            json!({"argc_child": argv.len(), "argc_expected": want.len(), "first_difference_at": k,
+                   "child": argv.get(k).map(|b| lossy(b)), "expected": want.get(k).map(|b| lossy(b))}),
+        ));
+    }
+    // environment: overrides exactly once with the last written value; everything else inherited
+    let mut child_env: Vec<(Vec<u8>, Vec<u8>)> = Vec::new();
+    for pair in side.get("env").and_then(J::as_array).cloned().unwrap_or_default() {
+        let k = unhex(pair.get(0).and_then(J::as_str).unwrap_or(""));
+        let v = unhex(pair.get(1).and_then(J::as_str).unwrap_or(""));
+        child_env.push((k, v));
+    }
+    for (k, v) in &m.env {
+        let hits: Vec<&(Vec<u8>, Vec<u8>)> = child_env.iter().filter(|(ck, _)| ck == k.as_bytes()).collect();
+        if hits.len() != 1 || hits[0].1 != v.as_bytes() {
+            return Some((
+                "env-mismatch".into(),
+                json!({"key": show(k), "expected": show(v), "child_entries": hits.iter().map(|(_, v)| lossy(v)).collect::<Vec<_>>()}),
+            ));
+        }
+    }
+    let overridden: BTreeSet<&[u8]> = m.env.iter().map(|(k, _)| k.as_bytes()).collect();
+    for (k, v) in &env.worker_env {
+        if overridden.contains(k.as_slice()) {
+            continue;
+        }
+        let hits: Vec<&(Vec<u8>, Vec<u8>)> = child_env.iter().filter(|(ck, _)| ck == k).collect();
+        if hits.len() != 1 || &hits[0].1 != v {
+            return Some(("env-inherit-mismatch".into(), json!({"key": lossy(k), "expected": lossy(v), "child_entries": hits.len()})));
+        }
+    }
+    for (k, v) in &child_env {
+        if !overridden.contains(k.as_slice()) && !env.worker_env.contains_key(k) {
+            return Some(("env-extra-variable".into(), json!({"key": lossy(k), "value": lossy(v)})));
+        }
+    }
+    // cwd
+    let cwd = side.get("cwd").and_then(J::as_str).map(unhex);
+    let want_cwd: Vec<u8> = match &m.cwd {
+        Some(p) => std::fs::canonicalize(p).map(|c| c.as_os_str().as_bytes().to_vec()).unwrap_or_else(|_| p.as_bytes().to_vec()),
+        None => env.worker_cwd.clone(),
+    };
+    if cwd.as_deref() != Some(want_cwd.as_slice()) {
+        return Some(("cwd-mismatch".into(), json!({"child": cwd.map(|c| lossy(&c)), "expected": lossy(&want_cwd), "configured": m.cwd})));
+    }
+    // stdin
+    let data = unhex(side.get("stdin").and_then(J::as_str).unwrap_or(""));
+    let kind = side.get("stdin_kind").and_then(J::as_str).unwrap_or("?");
+    let read_ok = side.get("stdin_read_ok").and_then(J::as_bool).unwrap_or(false);
+    let ino = side.get("stdin_ino").and_then(J::as_u64).unwrap_or(0);
+    let rdev = side.get("stdin_rdev").and_then(J::as_u64).unwrap_or(0);
+    let (want_data, kind_ok): (&[u8], bool) = match &m.stdin {
+        Stdin::Text(t) => (t.as_bytes(), kind == "pipe"),
+        Stdin::Null => (b"", kind == "chr" && rdev == env.devnull_rdev),
+        Stdin::Inherit => (b"", kind == "reg" && ino == env.stdin_ino),
+        Stdin::Default => (b"", true), // which of inherit/null is the default is not stated: not asserted
+    };
+    if m.stdin != Stdin::Default && (!read_ok || data != want_data) {
+        let k = data.iter().zip(want_data).position(|(a, b)| a != b).unwrap_or(data.len().min(want_data.len()));
+        return Some((
+            "stdin-mismatch".into(),
+            json!({"child_len": data.len(), "expected_len": want_data.len(), "first_difference_at": k, "read_ok": read_ok,
+                   "child_head": lossy(&data[..data.len().min(80)]), "expected_head": lossy(&want_data[..want_data.len().min(80)])}),
+        ));
+    }
+    if !kind_ok {
+        return Some(("stdin-kind".into(), json!({"configured": format!("{:?}", m.stdin).chars().take(40).collect::<String>(), "child_fd0": kind, "ino": ino, "rdev": rdev})));
+    }
+    None
+}
+
+struct Pending {
+    idx: u64,
+    marker: String,
+    canary: Option<String>,
+    replay: J,
+}
+
+fn run_case(ctx: &mut Ctx, env: &Env, stage: &str, idx: u64, pending: &mut Vec<Pending>) {
+    let mut rng = Rng::new(util::case_seed(ctx.seed, &format!("procspec-{stage}"), idx));
+    let case = match stage {
+        "limits" => limits_case(&mut rng, env, idx),
+        "invalid" => invalid_case(&mut rng, env, idx),
+        _ => random_case(&mut rng, env, idx),
+    };
+    let src = script_of(&case.spec);
+    if env.dump {
+        eprintln!("### {stage} {idx} probe={} allow={} caps={}\n{}", case.probe, case.allow, caps_json(&case.caps), show(&src));
+    }
+    let m = model_of(&case.spec);
+    let reasons = judge(&m, &case.caps);
+    let marker = format!("{}.spawned", case.side);
+    let _ = std::fs::remove_file(&marker);
+    let _ = std::fs::remove_file(&case.side);
+    let replay = json!({"engine": "procspec", "stage": stage, "seed": ctx.seed, "idx": idx, "src": src,
+                        "caps": caps_json(&case.caps), "allow_process": case.allow, "probe": case.probe,
+                        "must_be_refused_because": reasons});
+
+    let policy = HostPolicy { allow_process: case.allow, process: case.caps };
+    let t0 = Instant::now();
+    let real = match util::guarded(|| pipeline::run_source_with_policy(&src, RunCfg::default(), policy)) {
+        Ok(r) => r,
+        Err((msg, loc)) => {
+            let sig = format!("panic|{}|{}", util::normalise_msg(&msg), util::panic_site(&loc));
+            ctx.out.fail(idx, &sig, json!({"panic": msg, "at": loc}), replay);
+            return;
+        }
+    };
+    let elapsed_ms = t0.elapsed().as_millis() as u64;
+    if !real.accepted {
+        // the generator wrote something the front end does not take: a broken case, not a verdict
+        ctx.out.inconclusive(idx, "script rejected by the front end", json!({"parse": format!("{:?}", real.parse.first()), "sem": format!("{:?}", real.sem.first()), "src": show(&src)}));
+        return;
+    }
+    let spawned = Path::new(&marker).exists();
+    let canary_hit = case.canary.as_ref().is_some_and(|p| Path::new(p).exists());
+    if canary_hit {
+        ctx.out.fail(idx, "shell-interpretation", json!({"canary": case.canary}), replay);
+        return;
+    }
+    let refused_expected = !reasons.is_empty();
+    let ending = real.ending.as_str();
+    if let Some(what) = case.probe.strip_prefix("observe|") {
+        // recorded, never judged
+        ctx.out.tag(&format!("observed.{what}.{}", if ending == "ok" { "ran" } else { ending }));
+        return;
+    }
+
+    if !case.allow {
+        // denied: nothing may be spawned; when the command is also invalid either refusal is fine
+        let ok_ending = ending == env.e.denied || (refused_expected && ending == env.e.invalid);
+        if spawned {
+            ctx.out.fail(idx, "spawned-although-denied", json!({"ending": ending}), replay);
+        } else if !ok_ending {
+            ctx.out.fail(idx, "deny-not-enforced", json!({"ending": ending, "expected": env.e.denied}), replay);
+        } else {
+            ctx.out.tag("verdict.denied");
+            for t in &case.tags {
+                ctx.out.tag(t);
+            }
+            pending.push(Pending { idx, marker, canary: case.canary.clone(), replay });
+        }
+        return;
+    }
+
+    if refused_expected {
+        let first = reasons[0].clone();
+        if ending == env.e.invalid && !spawned {
+            ctx.out.tag("verdict.refused");
+            ctx.out.tag(&format!("refused.{first}"));
+            for t in &case.tags {
+                ctx.out.tag(t);
+            }
+            if case.nontrivial {
+                ctx.out.nontrivial(util::hash64(format!("{src}{:?}", case.caps).as_bytes()));
+                ctx.out.sample(json!({"src": show_n(&src, 700), "caps": caps_json(&case.caps), "verdict": "refused", "because": reasons}));
+            }
+            pending.push(Pending { idx, marker, canary: case.canary.clone(), replay });
+        } else if spawned {
+            let sig = if ending == env.e.invalid { "spawned-although-refused".to_string() } else if first.starts_with("max_") || first.starts_with("timeout") { format!("limit-not-enforced|{first}") } else { format!("invalid-accepted|{first}") };
+            ctx.out.fail(idx, &sig, json!({"ending": ending, "spawned": true, "reasons": reasons}), replay);
+        } else if m.program.len() >= 4096 && ending == env.e.spawn {
+            // a path the kernel itself refuses (PATH_MAX); nothing was spawned
+            ctx.out.tag("verdict.os_refused_path");
+        } else {
+            let sig = if first.starts_with("max_") || first.starts_with("timeout") { format!("limit-not-enforced|{first}") } else { format!("invalid-accepted|{first}") };
+            ctx.out.fail(idx, &sig, json!({"ending": ending, "spawned": false, "reasons": reasons, "expected_ending": env.e.invalid}), replay);
+        }
+        return;
+    }
+
+    // the command must run
+    if ending != "ok" {
+        let path_too_long_for_os = m.program.len() >= 4096 || m.cwd.as_ref().is_some_and(|c| c.len() >= 4096);
+        if ending == env.e.spawn && path_too_long_for_os && !spawned {
+            ctx.out.tag("verdict.os_refused_path");
+            for t in &case.tags {
+                ctx.out.tag(t);
+            }
+            return;
+        }
+        if ending == env.e.invalid || ending == env.e.denied {
+            let reason: String = real.runtime.iter().find(|d| d.severity == "error").map(|d| d.labels.iter().map(|l| l.2.clone()).collect::<Vec<_>>().join(" | ")).unwrap_or_default();
+            ctx.out.fail(idx, &format!("in-limit-refused|{}", case.probe), json!({"ending": ending, "spawned": spawned, "reason_given": reason}), replay);
+        } else if ending == env.e.timeout {
+            let t = m.timeout.unwrap_or(f64::from(case.caps.default_timeout_ms));
+            if (elapsed_ms as f64) < t {
+                ctx.out.fail(idx, "premature-timeout", json!({"elapsed_ms": elapsed_ms, "timeout_ms": t}), replay);
+            } else {
+                ctx.out.inconclusive(idx, "child did not finish within the (huge) timeout: machine too slow", json!({"elapsed_ms": elapsed_ms, "timeout_ms": t}));
+            }
+        } else if ending == env.e.spawn {
+            ctx.out.inconclusive(idx, "helper could not be started", json!({"runtime": format!("{:?}", real.runtime.first()), "spawned": spawned}));
+        } else {
+            ctx.out.fail(idx, &format!("unexpected-ending|{ending}"), json!({"spawned": spawned, "runtime": format!("{:?}", real.runtime.first())}), replay);
+        }
+        return;
+    }
+    if !spawned {
+        ctx.out.fail(idx, "ok-without-spawn", json!({"output": real.output}), replay);
+        return;
+    }
+    let side: J = match std::fs::read(&case.side).ok().and_then(|b| serde_json::from_slice(&b).ok()) {
+        Some(j) => j,
+        None => {
+            ctx.out.inconclusive(idx, "helper left no side file", json!({"output": real.output}));
+            return;
+        }
+    };
+    if let Some((sig, detail)) = compare(env, &m, &side) {
+        ctx.out.fail(idx, &sig, detail, replay);
+        return;
+    }
+    if real.output.get(1).is_some_and(|c| c == "97") {
+        ctx.out.inconclusive(idx, "helper reported an internal failure (exit 97)", json!({"output": real.output}));
+        return;
+    }
+    if real.output != ["true", "0"] {
+        ctx.out.fail(idx, "result-of-successful-helper", json!({"output": real.output}), replay);
+        return;
+    }
+    let _ = std::fs::remove_file(&marker);
+    let _ = std::fs::remove_file(&case.side);
+    if let Some(c) = &case.canary {
+        pending.push(Pending { idx, marker: String::new(), canary: Some(c.clone()), replay: replay.clone() });
+    }
+
+    // coverage
+    ctx.out.tag("verdict.ran");
+    for t in &case.tags {
+        ctx.out.tag(t);
+    }
+    let mut firsts = String::new();
+    for c in &case.spec.calls {
+        let l = c.letter();
+        if !firsts.contains(l) {
+            firsts.push(l);
+        }
+    }
+    ctx.out.tag(&format!("perm.{firsts}"));
+    ctx.out.tag(&format!("stdin.{}", match &m.stdin {
+        Stdin::Default => format!("default(child fd0={})", side.get("stdin_kind").and_then(J::as_str).unwrap_or("?")),
+        Stdin::Inherit => "inherit".into(),
+        Stdin::Null => "null".into(),
+        Stdin::Text(..) => "text".into(),
+    }));
+    ctx.out.tag_n("args_compared", m.args.len() as u64);
+    ctx.out.tag_n("env_overrides_compared", m.env.len() as u64);
+    let meta_args = m.args.iter().filter(|a| is_meta(a)).count();
+    if meta_args >= 2 {
+        ctx.out.tag("args_with_metacharacters>=2");
+    }
+    if case.nontrivial {
+        ctx.out.nontrivial(util::hash64(format!("{src}{:?}", case.caps).as_bytes()));
+        ctx.out.sample(json!({"src": show_n(&src, 700), "caps": caps_json(&case.caps), "verdict": "ran", "argc": m.args.len() + 1, "env_overrides": m.env.len()}));
+    }
+}
 
 pub fn run(ctx: &mut Ctx) {
-    let _ = ctx;
-    eprintln!("engine procspec not implemented");
-    std::process::exit(2);
+    let env = setup(ctx);
+    let stage = ctx.opt("stage").unwrap_or("random").to_string();
+    let mut pending: Vec<Pending> = Vec::new();
+    for idx in ctx.indices() {
+        ctx.out.begin(idx);
+        ctx.out.evaluations += 1;
+        run_case(ctx, &env, &stage, idx, &mut pending);
+    }
+    // late look: nothing that was refused may have started in the meantime, no canary may exist
+    for p in pending {
+        if !p.marker.is_empty() && Path::new(&p.marker).exists() {
+            ctx.out.fail(p.idx, "spawned-although-refused", json!({"late": true}), p.replay.clone());
+        }
+        if p.canary.as_ref().is_some_and(|c| Path::new(c).exists()) {
+            ctx.out.fail(p.idx, "shell-interpretation", json!({"late": true, "canary": p.canary}), p.replay);
+        }
+    }
 }
